@@ -9,12 +9,12 @@ def register(prop, J):
               "readers, bare or under a batch envelope with its leading-scope offset}; non-trivial = the spec matches some but not all "
               "keyed values, or uses a wildcard; distinct by (mode, format, wrap, spec, document)",
          jobs=[
-             J("excl-v2", "v2", "codecprops", "^TestC07", checks=(12000, 600000), shards=(4, 16), prepare="prepare_codec",
+             J("excl-v2", "v2", "codecprops", "^TestC07", checks=(12000, 3600000), shards=(4, 16), prepare="prepare_codec",
                extra_pkgs=["dyn", "gendrv"], timeout=(900, 3000)),
-             J("excl-wire-v2", "v2", "resprops", "^TestC07", checks=(6000, 200000), shards=(4, 16), prepare="prepare_resources",
+             J("excl-wire-v2", "v2", "resprops", "^TestC07", checks=(6000, 1200000), shards=(4, 16), prepare="prepare_resources",
                extra_pkgs=["dyn", "gendrv"], timeout=(1200, 3000)),
              # (appended after the v2 jobs: the position of a job determines its derived seeds)
-             J("excl-v1", "v1", "codecprops", "^TestC07", checks=(8000, 300000), shards=(4, 16), prepare="prepare_codec",
+             J("excl-v1", "v1", "codecprops", "^TestC07", checks=(8000, 1800000), shards=(4, 16), prepare="prepare_codec",
                extra_pkgs=["dyn", "gendrv"], timeout=(900, 3000)),
          ],
          level_text="generated (value, exclusion spec) pairs against an independent prefix-matching model: the encoder must omit "
